@@ -64,6 +64,9 @@ func NewWithErr(baseFS avfs.VFS, basePath string) (*BasePathFS, error) {
 
 	_ = vfs.SetFeatures(baseFS.Features() &^ avfs.FeatSymlink)
 
+	// The current directory is the root directory until Chdir is called.
+	_ = vfs.SetCurDir(vfs.FromBasePath(vfs.basePath))
+
 	return vfs, nil
 }
 
@@ -126,16 +129,18 @@ func (vfs *BasePathFS) ToBasePath(path string) string {
 		return vfs.basePath
 	}
 
-	if vfs.IsAbs(path) {
-		// Clean clamps the ".." elements of a rooted path at the root :
-		// the result can't be outside of the base path.
-		path = vfs.Clean(path)
-		vl := avfs.VolumeNameLen(vfs, path)
-
-		return vfs.Join(vfs.basePath, path[vl:])
+	if !vfs.IsAbs(path) {
+		// A relative path starts from the current directory of this file system,
+		// never from the current directory of the base file system.
+		path = vfs.Join(vfs.CurDir(), path)
 	}
 
-	return path
+	// Clean clamps the ".." elements of a rooted path at the root :
+	// the result can't be outside of the base path.
+	path = vfs.Clean(path)
+	vl := avfs.VolumeNameLen(vfs, path)
+
+	return vfs.Join(vfs.basePath, path[vl:])
 }
 
 // Name returns the name of the fileSystem.
